@@ -1002,6 +1002,12 @@ def describe(prog, body, x, depth=0, seen=None):
                 hv = const_from_hir(prog, x["def"])
                 if hv is not None:
                     return hv
+                m = re.search(r"num::<impl ([iu])(8|16|32|64|128|size)>::(MAX|MIN)$", x["def"])
+                if m:
+                    bits = 64 if m.group(2) == "size" else int(m.group(2))
+                    if m.group(1) == "u":
+                        return ("lit", (1 << bits) - 1 if m.group(3) == "MAX" else 0)
+                    return ("lit", (1 << (bits - 1)) - 1 if m.group(3) == "MAX" else -(1 << (bits - 1)))
                 return ("const", x["def"])
             m = re.match(r"^(?:const )?(-?\d+)_(?:[iu](?:8|16|32|64|128|size))$", x.get("repr") or "")
             if m:
